@@ -322,6 +322,19 @@ func init() {
 		r := iv.v.(*OpaqueV).data.(*awaitRes)
 		return &TupleV{vs: []Value{r.val, r.err}}
 	}
+	// gocoro.Add (kernel skeleton harnesses): the coroutine runs to completion at the point where it is added
+	intercepts[g+"Add"] = func(ex *Exec, fr *Frame, a []Value, s ssa.Instruction) Value {
+		ex.H.noteStub("gocoro.Add: the added coroutine runs to completion immediately (sequential skeleton); refusal is a harness choice")
+		if ex.W.schedFull > 0 && ex.choose(2, nil, "scheduler-full") == 1 {
+			return &TupleV{vs: []Value{&IfaceV{}, ex.tt.Bool(false)}}
+		}
+		ex.W.ncoro++
+		c := &CoroObj{id: ex.W.ncoro}
+		r := ex.callValue(nil, a[1], []Value{ex.coroValue(c)}, nil)
+		_ = r
+		return &TupleV{vs: []Value{&IfaceV{typ: ex.P.errorStringType(), v: &OpaqueV{kind: "gpromise"}}, ex.tt.Bool(true)}}
+	}
+	intercepts["opaque:gpromise.Completed"] = func(ex *Exec, fr *Frame, a []Value, s ssa.Instruction) Value { return ex.tt.Bool(true) }
 	intercepts["opaque:coro.Time"] = func(ex *Exec, fr *Frame, a []Value, s ssa.Instruction) Value { return ex.W.now }
 	intercepts["opaque:coro.Get"] = func(ex *Exec, fr *Frame, a []Value, s ssa.Instruction) Value {
 		k := ex.str(a[1], "resource key")
@@ -342,6 +355,14 @@ func init() {
 	})
 	vx("AutoO2", func(ex *Exec, fr *Frame, a []Value, s ssa.Instruction) Value {
 		ex.W.autoO2 = ex.str(a[0], "label")
+		return nil
+	})
+	vx("IgnoreGo", func(ex *Exec, fr *Frame, a []Value, s ssa.Instruction) Value {
+		ex.W.ignoreGo = true
+		return nil
+	})
+	vx("SchedulerMayRefuse", func(ex *Exec, fr *Frame, a []Value, s ssa.Instruction) Value {
+		ex.W.schedFull = 1
 		return nil
 	})
 	vx("SetConfig", func(ex *Exec, fr *Frame, a []Value, s ssa.Instruction) Value {
